@@ -1071,6 +1071,22 @@ func c06probes(c *core.Ctx) {
 			}
 			return ""
 		}, ""},
+		{"300 nested containers", hdr + strings.Repeat("container c { ", 300) + strings.Repeat("} ", 300) + "\n}", func(m *meta.Module, err error) string {
+			if err != nil {
+				return "load fails: " + err.Error()
+			}
+			return ""
+		}, ""},
+		{"extension statement with a body", "module m { namespace \"urn:m\"; prefix m; revision 2020-01-01; extension e1 { argument a; }\n leaf a { type string; m:e1 \"arg\" { description \"in\"; } }\n}", func(m *meta.Module, err error) string {
+			if err != nil {
+				return "load fails: " + err.Error()
+			}
+			es := m.DataDefinitions()[0].(*meta.Leaf).Extensions()
+			if len(es) != 1 || es[0].Argument() != "arg" {
+				return fmt.Sprintf("extensions read %d, argument %q", len(es), es[0].Argument())
+			}
+			return ""
+		}, ""},
 		{"quoted yang-version and revision date", "module m { yang-version \"1.1\"; namespace \"urn:m\"; prefix m; revision \"2020-01-01\";\n}", func(m *meta.Module, err error) string {
 			if err != nil {
 				return "load fails: " + err.Error()
